@@ -183,7 +183,7 @@ func (in *vfC02Inst) Apply(ev string, judge bool) string {
 		if g.conn[f[1]] {
 			label = f[2]
 		}
-	case "lpub":
+	case "lpub", "lpubgo":
 		label = f[2] // with the content-hash ID function a local publish of the same data has the same ID
 	}
 	calls := func() int {
@@ -315,6 +315,20 @@ func vfC02Scenarios(thorough bool) []*vfGWScenario {
 					Cfg:      vfGWCfg{Router: "flood", Peers: peers, Topics: []string{"t"}, SeenTTL: 2, Strategy: strategy, IDFn: "content", Validators: vals, Workers: workers, Prefix: prefix},
 					Alphabet: alphabet, Msgs: msgs, Depth: d, MaxSubs: 2})
 			}
+		}
+	}
+	// "even when the same ID is published locally at the same time": the local publication is in progress (parked
+	// in its validator, from its own goroutine) while remote copies of the same ID arrive, and the other way round
+	for _, strategy := range []string{"first", "last"} {
+		for _, inline := range []bool{true, false} {
+			name := strategy + "-local-in-progress-async"
+			if inline {
+				name = strategy + "-local-in-progress-inline"
+			}
+			out = append(out, &vfGWScenario{Name: name,
+				Cfg: vfGWCfg{Router: "flood", Peers: peers, Topics: []string{"t"}, SeenTTL: 2, Strategy: strategy, IDFn: "content", Workers: 2, Prefix: prefix, Extra: map[string]string{"park_local": "1"},
+					Validators: []vfValCfg{{Name: "V", Topic: "t", Inline: inline, Gated: true, Verdict: "A"}}},
+				Alphabet: []string{"lpubgo:t:m1", "pub:a:m1", "pub:b:m1", "vrel:V:m1:A", "vrel:V:m1:I", "adv:1900"}, Msgs: msgs, Depth: d + 1, MaxSubs: 2})
 		}
 	}
 	// the race the markSeen gate exists for: a parked inline validator keeps the single worker busy, so
